@@ -11,6 +11,9 @@ Parts
   inc tables       token-level reader of generated `T name[] = { {...}, ... };` tables (reformat-proof)
   layout           type/extents of a field designator (a.b[2].c) from clang's record layouts
   locals           definitions of locals, alpha-normalised expression text, provenance helpers
+  views            View / CxxInliner: canonical view of a C++ body — helper functions of the TU, members called on `this`
+                   and lambdas (generic ones per instantiation) expanded in place (sa.norm.Inliner with a C++ call
+                   resolver), nested view (norm.nest) and guard atoms (norm.guards) on top of it
 """
 from __future__ import annotations
 
@@ -1176,6 +1179,330 @@ def optional_deref(n):
 
 
 # ---------------------------------------------------------------------------------------------------------------
+# canonical views of C++ bodies: same-TU helpers, own-class methods called on `this` and lambdas are analysed inside
+# their callers (sa.norm.Inliner with a C++ call resolver).  A rule that runs on a view decides on what the code does:
+# whether a loop is written out seventeen times or driven by one lambda, whether a clip sits in the method or in a helper
+# the value flows through, makes no difference to it.
+
+_EXPLICIT_CASTS = ("CStyleCastExpr", "CXXStaticCastExpr", "CXXReinterpretCastExpr", "CXXFunctionalCastExpr",
+                   "CXXConstCastExpr")
+
+
+def nested_functions(root):
+    """Function-like declarations with a body strictly inside `root`: operator() of lambdas (for a generic lambda: the
+    pattern and every instantiation), methods of local classes."""
+    out = []
+    stack = [c for c in cir.kids(root) if c]
+    while stack:
+        x = stack.pop()
+        if not x:
+            continue
+        if x.get("k") in FUNC_KINDS and cir.body(x) is not None:
+            out.append(x)
+        c = x.get("i")
+        if c:
+            stack.extend(c)
+    return out
+
+
+def walk_outer(n):
+    """Preorder over the part of a body that executes when control passes through it: bodies of lambdas and local
+    classes are left out (they run when called)."""
+    stack = [n]
+    while stack:
+        x = stack.pop()
+        if not x:
+            continue
+        yield x
+        if x.get("k") == "LambdaExpr" or (x.get("k") in FUNC_KINDS + ("CXXRecordDecl",) and x is not n):
+            continue
+        c = x.get("i")
+        if c:
+            stack.extend(reversed(c))
+
+
+def lambda_captures(lam):
+    """[(captured decl id | 'this', by_copy)] of a LambdaExpr: capture fields of the closure class paired with the
+    capture initialisers."""
+    kids_ = [c for c in cir.kids(lam) if c is not None]
+    rec = next((c for c in kids_ if c.get("k") == "CXXRecordDecl"), None)
+    fields = [c for c in cir.kids(rec) if c is not None and c.get("k") == "FieldDecl"] if rec else []
+    inits = [c for c in kids_ if c.get("k") not in ("CXXRecordDecl", "CompoundStmt")]
+    out = []
+    for i, e in enumerate(inits):
+        s = cir.strip(e)
+        ft = (fields[i].get("t") or "") if i < len(fields) else ""
+        by_copy = not ft.rstrip().endswith("&")
+        if s is not None and s.get("k") == "CXXThisExpr":
+            out.append(("this", False))
+        elif s is not None and s.get("k") == "DeclRefExpr":
+            out.append(((s.get("ref") or {}).get("id"), by_copy))
+        else:
+            out.append((None, by_copy))         # init-capture `[x = expr]`
+    return out
+
+
+def _alias_arg(a):
+    """The lvalue a reference parameter is bound to, or None when the argument is a temporary / converted value."""
+    n = a
+    while n is not None and n.get("k") in cir.TRANSPARENT:
+        if n["k"] in ("MaterializeTemporaryExpr", "CXXBindTemporaryExpr") + _EXPLICIT_CASTS:
+            return None
+        if n["k"] == "ImplicitCastExpr" and n.get("ck") not in ("NoOp", "DerivedToBase", "UncheckedDerivedToBase", None):
+            return None
+        c = [x for x in cir.kids(n) if x is not None]
+        if not c:
+            return None
+        n = c[0]
+    if n is None:
+        return None
+    if n.get("k") in ("DeclRefExpr", "MemberExpr", "ArraySubscriptExpr") or \
+            (n.get("k") == "UnaryOperator" and n.get("op") == "*"):
+        return n
+    return None
+
+
+class _NoUnit:
+    def __init__(self, tu):
+        self.tu = tu
+        self.funcs = {}
+
+
+def _make_inliner():
+    from . import norm
+
+    class CxxInliner(norm.Inliner):
+        """norm.Inliner for C++: callees are resolved through declaration ids (functions and static methods of the TU,
+        methods called on `this`, operator() of lambdas — also generic ones, per instantiation).  `pred(h)` chooses the
+        helpers, `exclude` names the anchors of the rule that must stay calls.  Reference parameters bound to an
+        lvalue are aliases (substituted); locals of an inlined body get fresh declaration ids per inlining, so that two
+        expansions of one helper do not share variables."""
+
+        def __init__(self, fns, tu, depth=6, pred=None, exclude=()):
+            super().__init__(_NoUnit(tu), depth=depth, pred=pred or (lambda h: True), exclude=exclude)
+            self.bodies = {}
+            self.lambda_ids = set()
+            self._norm = {}
+            self._seen_nested = set()
+            self._fresh = 0
+            for f in fns:
+                self._add(f)
+
+        # -- registry
+        def _add(self, node, lam=False):
+            for key in (node.get("id"), node.get("prev")):
+                if key:
+                    self.bodies.setdefault(key, node)
+            if lam and node.get("id"):
+                self.lambda_ids.add(node["id"])
+
+        def register_nested(self, fn):
+            if id(fn) in self._seen_nested:
+                return
+            self._seen_nested.add(id(fn))
+            unsafe = set()
+            changed = norm.modified_vars(fn)
+            for x in cir.walk(fn):
+                if x.get("k") != "LambdaExpr":
+                    continue
+                caps = lambda_captures(x)
+                bad = any(by_copy and (vid is None or vid in changed) for vid, by_copy in caps if vid != "this")
+                if bad:
+                    # a by-copy capture of a variable that changes later: the body sees the old value — not followed
+                    for g in nested_functions(x):
+                        unsafe.add(id(g))
+            for g in nested_functions(fn):
+                if id(g) in unsafe:
+                    continue
+                if g.get("n") == "operator()":
+                    g = dict(g, n=f"<lambda:{g.get('line')}>", islambda=True)
+                    self._add(g, lam=True)
+                else:
+                    self._add(g)
+
+        # -- lambda calls `f(a, b)` are CXXOperatorCallExpr(operator(), f, a, b): drop the closure object, so that
+        #    arguments and parameters line up like for any other call
+        def normalise(self, n):
+            if not isinstance(n, dict):
+                return n
+            out = {k: v for k, v in n.items() if k != "i"}
+            if "i" in n:
+                out["i"] = [self.normalise(c) if c is not None else None for c in n["i"]]
+            if out.get("k") == "CXXOperatorCallExpr" and len(out.get("i") or ()) >= 2:
+                f = cir.strip(out["i"][0])
+                if f is not None and f.get("k") == "DeclRefExpr" and (f.get("ref") or {}).get("n") == "operator()" and \
+                        (f.get("ref") or {}).get("id") in self.lambda_ids:
+                    obj = cir.strip(out["i"][1], casts=False)
+                    if obj is not None and obj.get("k") in ("DeclRefExpr", "LambdaExpr"):
+                        out["k"] = "CallExpr"
+                        out["lam"] = True
+                        out["i"] = [out["i"][0]] + out["i"][2:]
+            return out
+
+        def target(self, call):
+            """The function node (normalised) a call reaches, or None."""
+            k = call.get("k")
+            c = cir.kids(call)
+            if not c:
+                return None
+            f = cir.strip(c[0])
+            h = None
+            if f is None:
+                return None
+            if k == "CallExpr" and f.get("k") == "DeclRefExpr":
+                r = f.get("ref") or {}
+                if r.get("k") in ("FunctionDecl", "CXXMethodDecl"):
+                    h = self.bodies.get(r.get("id"))
+            elif k == "CXXMemberCallExpr" and f.get("k") == "MemberExpr" and f.get("mid"):
+                b = cir.kids(f)
+                base = cir.strip(b[0]) if b else None
+                if base is not None and base.get("k") == "CXXThisExpr":
+                    h = self.bodies.get(f.get("mid"))
+            if h is None:
+                return None
+            key = id(h)
+            if key not in self._norm:
+                self.register_nested(h)
+                self._norm[key] = (h, self.normalise(h))
+            return self._norm[key][1]
+
+        def helper(self, call, stack):
+            h = self.target(call)
+            if h is None or h.get("variadic"):
+                return None
+            name = h.get("n")
+            if not name or name in self.exclude or name in stack:
+                return None
+            if not (h.get("islambda") or self.pred(h)):
+                return None
+            if len(cir.params(h)) != len(cir.args(call)):
+                return None
+            return h
+
+        def _bind(self, h, call):
+            mapping, pro = super()._bind(h, call)
+            mod = norm.modified_vars(cir.body(h))
+            keep = []
+            for st in pro:
+                d = cir.kids(st)[0]
+                t = (d.get("t") or "").rstrip()
+                a = cir.kids(d)[0]
+                tgt = _alias_arg(a) if (t.endswith("&") and not t.endswith("&&")) else None
+                if tgt is not None and cir.is_pure(tgt) and not any(
+                        x.get("k") == "DeclRefExpr" and (x.get("ref") or {}).get("id") in mod for x in cir.walk(tgt)):
+                    mapping[d.get("id")] = tgt
+                else:
+                    keep.append(st)
+            if len(keep) != len(pro):
+                return mapping, keep
+            return mapping, pro
+
+        def _inline(self, h, call, mode, target, stack, depth):
+            out = super()._inline(h, call, mode, target, stack, depth)
+            self._fresh += 1
+            return [_fresh_ids(b, f"#{self._fresh}") for b in out]
+
+        def expand(self, fn):
+            self.register_nested(fn)
+            return super().expand(self.normalise(fn))
+
+    return CxxInliner
+
+
+def _fresh_ids(block, tag):
+    """Rename the declaration ids of the variables declared inside an inlined block (not those a lambda inside the
+    block refers to: its body is looked up in the original tree)."""
+    declared = {x.get("id") for x in cir.walk(block) if x.get("k") == "VarDecl" and x.get("id")}
+    if not declared:
+        return block
+    held = set()
+    for x in cir.walk(block):
+        if x.get("k") == "LambdaExpr":
+            for y in cir.walk(x):
+                if y.get("k") == "DeclRefExpr":
+                    held.add((y.get("ref") or {}).get("id"))
+    ren = {i: f"{i}{tag}" for i in declared - held}
+    if not ren:
+        return block
+
+    def rec(n):
+        if not isinstance(n, dict):
+            return n
+        out = {k: v for k, v in n.items() if k != "i"}
+        if out.get("k") == "VarDecl" and out.get("id") in ren:
+            out["id"] = ren[out["id"]]
+        elif out.get("k") == "DeclRefExpr" and (out.get("ref") or {}).get("id") in ren:
+            out["ref"] = dict(out["ref"], id=ren[out["ref"]["id"]])
+        if out.get("decl_init") in ren:
+            out["decl_init"] = ren[out["decl_init"]]
+        if "i" in n:
+            out["i"] = [rec(c) if c is not None else None for c in n["i"]]
+        return out
+    return rec(block)
+
+
+class View:
+    """Canonical view of one function: `fn` (helpers / lambdas inlined), `nested` (early exits folded into if/else, lazily),
+    `inlined` (names), and the inliner for follow-up questions about what was left as a call."""
+
+    def __init__(self, fn_node, fns, tu, pred=None, exclude=(), depth=6):
+        self.orig = fn_node
+        self.inliner = _make_inliner()(fns, tu, depth=depth, pred=pred, exclude=exclude)
+        self.fn = self.inliner.expand(fn_node)
+        self.fn.setdefault("file", fn_node.get("file"))
+        self.inlined = sorted({h for _c, h, _l in self.inliner.inlined})
+        self._nested = None
+
+    @property
+    def nested(self):
+        if self._nested is None:
+            from . import norm
+            self._nested = norm.nest(self.fn)
+        return self._nested
+
+    def residual_targets(self, root=None):
+        """[(call node, target function node)] for the calls left in the view whose callee has a body the inliner
+        knows (a helper or lambda of the TU that was *not* expanded at that site)."""
+        out = []
+        for x in walk_outer(root if root is not None else self.fn):
+            if cir.is_call(x):
+                h = self.inliner.target(x)
+                if h is not None:
+                    out.append((x, h))
+        return out
+
+    def reaches(self, call_or_fn, pred_node, seen=None):
+        """Does the body a residual call reaches contain (transitively, through calls the inliner can resolve) a node
+        for which pred_node holds?"""
+        seen = seen if seen is not None else set()
+        h = self.inliner.target(call_or_fn) if cir.is_call(call_or_fn) else call_or_fn
+        if h is None or id(h) in seen:
+            return False
+        seen.add(id(h))
+        for x in cir.walk(cir.body(h)):
+            if pred_node(x):
+                return True
+            if cir.is_call(x) and self.reaches(x, pred_node, seen):
+                return True
+        return False
+
+
+def guard_atoms(view_nested, node, decls=None):
+    """Guard of `node` in a nested view as a tuple of (alpha-normalised condition text, polarity): atoms contributed by
+    if statements, `?:`, `&&`, `||` (loop conditions are left out: an index loop and a range-for guard alike)."""
+    from . import norm
+    g = norm.guards(view_nested, node, stmts=True)
+    if g is None:
+        return None
+    out = []
+    for cond, pol, st in g:
+        if st is not None and st.get("k") != "IfStmt":
+            continue
+        out.append((alpha_text(cir.strip(cond), decls or {}), pol))
+    return tuple(out)
+
+
+# ---------------------------------------------------------------------------------------------------------------
 # self-test driver (scratch copies of the repository, anchored text edits)
 
 
@@ -1208,6 +1535,12 @@ def run_mutants(pid, res, mutants, parts=("include", "src", "cmake", "CMakeLists
             if mm and not line.startswith("NOTE"):
                 got.add((mm.group(1), mm.group(2).rstrip(":")))
         controls = [m for m in ms if m["expect"] is None]
+        if rc == 2 and "clang could not parse" in out:
+            # a mutant that no longer compiles is stale, not "refused": it would hide every other mutant of its group
+            bad.append((g, "a mutant of this group does not compile (stale edit)", out[out.find("clang could not parse"):][:300]))
+            for m in ms:
+                summary[m["id"]] = "does-not-compile"
+            continue
         for m in ms:
             if m["id"] in stale:
                 if m.get("fixes"):
